@@ -12,7 +12,11 @@
    compiler and VM models that the two compilation modes — ByteCode with
    Run(true) as the REPL and -eval use, ByteCodeNoStck with Run(false) as
    file mode uses — leave the same global bindings and the same stack
-   ([C16_modes_bind_the_same_globals]). *)
+   ([C16_modes_bind_the_same_globals]); and for whole sessions of such
+   statements and of definitions of expression-bodied functions, in any order,
+   the two modes stay related tree after tree: the same values or errors (file
+   mode shows no value), the same global data, the same output, the same input
+   left ([C16_sessions_in_both_modes_partial], StmtModes.v). *)
 Require Import Calc.Base Calc.Repl Calc.ReplProofs.
 Require Import Calc.Bytecode Calc.Value Calc.Ast Calc.Compile Calc.VM Calc.Session
         Calc.ExprSem Calc.ExprVM Calc.ExprCorrect Calc.ExprTop Calc.ExprAssign Calc.ExprSession
@@ -78,3 +82,59 @@ Proof.
   rewrite E1, E2. cbn [fst snd]. repeat split; assumption.
 Qed.
 Print Assumptions C16_modes_bind_the_same_globals.
+
+(* ---- whole sessions in the two modes ---- *)
+Require Import Calc.Resolve Calc.StmtRel Calc.StmtDef Calc.StmtMixed Calc.StmtModes Calc.PropC01.
+
+(* a session of definitions and statements run from one machine in value mode and in file mode: at every
+   statement to which the statement semantics gives a meaning, unless a run is stuck (tree refused for size,
+   the model's step budget), value mode ends with the meaning's value or error class, file mode with no value
+   or the same error class, value mode's world is the meaning's and file mode's world is related to it: the
+   same global data (the function values differ only in their entry points), the same output, the same input
+   left.  FN: the names the session gives to functions. *)
+Theorem C16_sessions_in_both_modes_partial : forall FN items B mc c m,
+  tabs_ok FN B B -> tready B mc c m -> Forall (item_ok2 FN) items ->
+  pair false true [] [] B B mc mc items.
+Proof. exact modes_session. Qed.
+Print Assumptions C16_sessions_in_both_modes_partial.
+
+(* a definition in file mode: compiled without the final PUSH, three steps, the same function value bound *)
+Theorem C16_definition_in_file_mode : forall B t f ps body lc mc c m,
+  bready B mc c m -> m_fp m = [] -> ncs (mc_cs mc) + 1 < 4294967296 ->
+  strewrite t = Some (NAssign (NName f) (NFunction ps body lc)) ->
+  CompileWf.wfb (NAssign (NName f) (NFunction ps body lc)) = true ->
+  LExprSem.lpure (repeat VNil (List.length ps)) body = true -> lc = Z.of_nat (List.length ps) ->
+  bop_of_name f = None -> f <> "read"%string ->
+  snd (run_tree true mc t) = TRefused \/
+  exists c' m',
+    let fv := VFun (pack_function (ncs (mc_cs mc) + 1) lc lc) (v_next (mc_vm mc)) in
+    let mc' := fst (run_tree true mc t) in
+    snd (run_tree true mc t) = TValue VNil /\
+    wof (mc_vm mc') = wbump (wglob (wof (mc_vm mc)) (sassoc_set (v_globals (mc_vm mc)) f fv)) /\
+    bready (ft_add B f fv body lc) mc' c' m' /\ m_fp m' = [].
+Proof. exact def_step_nostck. Qed.
+Print Assumptions C16_definition_in_file_mode.
+
+(* the premises hold for the demonstration session of C01 on the machine after builtin.Load, and the session
+   computes in file mode: no values, the same errors *)
+Example C16_demo_in_both_modes : pair false true [] [] vm_tab vm_tab mc_after_first mc_after_first demo_items.
+Proof.
+  destruct C01_vm_start_state_holds as [c [m Hr]].
+  exact (modes_session demo_names demo_items vm_tab mc_after_first c m C01_vm_tables_hold Hr C01_demo_items_ok).
+Qed.
+
+Fixpoint run_all_file (mc : machine) (ts : list node) : list tree_result :=
+  match ts with
+  | [] => []
+  | t :: r => snd (run_tree true mc t) :: run_all_file (fst (run_tree true mc t)) r
+  end.
+
+Definition hide_value (o : option (res value)) : option (res value) :=
+  match o with Some (Ok _) => Some (Ok VNil) | x => x end.
+
+Example C16_demo_in_file_mode_computes :
+  map brief (run_all_file mc_after_first (map item_tree demo_items)) =
+  map hide_value (map brief (run_all mc_after_first (map item_tree demo_items))) /\
+  List.length (filter (fun o => match o with Some (Fail _) => true | _ => false end)
+                      (map brief (run_all_file mc_after_first (map item_tree demo_items)))) = 6%nat.
+Proof. split; vm_compute; reflexivity. Qed.
